@@ -470,6 +470,12 @@ def main(argv):
         trusted += kres.get("trusted", [])
         solver_us += int(kres.get("solver_s", 0) * 1e6)
 
+    # a failing obligation in a function whose PROOF HINTS (R10/R11 annotations) could not be placed is not evidence
+    # of a violation: the proof may fail only for lack of the hint -> undecided
+    for o in all_obs:
+        f = o.get("fn")
+        if o["failed"] and f is not None and f.get("hint_lost"):
+            undecided.append(f"hint-lost unit={o.get('unit')}: {o['id']} fails, but proof annotations of {f['name']} could not be placed ({'; '.join(f['hint_lost'])[:200]})")
     wall = time.time() - t0
     failed = [o for o in all_obs if o["failed"]]
     # ---- known findings ----
